@@ -14,6 +14,7 @@ _run_once); the interpreter is pinned in this image.
 """
 import asyncio
 import inspect
+import sys
 import threading
 from asyncio import events
 
@@ -56,6 +57,7 @@ class DetLoop(asyncio.SelectorEventLoop):
     def __init__(self):
         super().__init__(selector=_NullSelector())
         self._vt = 1000.0
+        self._agen_hooks = []
         # exceptions of fire-and-forget tasks are observed by the harness
         # where they matter; keep asyncio from printing them
         self.set_exception_handler(lambda loop, ctx: None)
@@ -67,10 +69,17 @@ class DetLoop(asyncio.SelectorEventLoop):
     def _enter(self):
         self._thread_id = threading.get_ident()
         events._set_running_loop(self)
+        # like run_forever(): abandoned async generators are finalised by
+        # an aclose() task scheduled on the loop, not synchronously
+        self._agen_hooks.append(sys.get_asyncgen_hooks())
+        sys.set_asyncgen_hooks(firstiter=self._asyncgen_firstiter_hook,
+                               finalizer=self._asyncgen_finalizer_hook)
 
     def _leave(self):
         self._thread_id = None
         events._set_running_loop(None)
+        if self._agen_hooks:
+            sys.set_asyncgen_hooks(*self._agen_hooks.pop())
 
     def run_until_idle(self, max_steps=200000):
         self._enter()
